@@ -256,6 +256,8 @@ func runC08(c *Ctx, r *Rec) {
 
 	// ---- D3 guarded recursion
 	checkGuardedRecursion(c, r, info, cr.n, cr.ms, cr.depthF, cr.maxF, "D3-guarded-recursion")
+	checkSwapArmAtEntryDepth(c, r, "D3-exchange-at-entry-depth", cr)
+	checkTypeLockPairing(c, r, "D4-lock-released", cr.n)
 
 	checkDepthRestored(c, r, cr)
 }
